@@ -39,6 +39,7 @@ MANIFEST = {"C06": dict(
          "design check and by what the Go scheduler produces. Messages sent together with / after an end are judged for "
          "order only (tail loss at an end is recorded as an observation, DESIGN 3.5). Namespace translation is off.")}
 HARNESS = ["zz_verif_forwarder_test.go"]
+CODES = ["unavailable", "resource_exhausted", "internal", "canceled", "deadline_exceeded", "plain"]
 # (cfg, must_hold, workers, timeout)
 PROFILES = {
     "quick": dict(design=[("fwd_k1.cfg", True, 6, 900), ("fwd_t3s.cfg", True, 3, 900), ("fwd_live_q.cfg", True, 3, 900),
@@ -134,6 +135,8 @@ def run(c, a):
                     d["id"] = "%s-%d-%s-%s" % (prof["gen"][:-4], i, mode, payload)
                     d["mode"] = mode
                     d["payload"] = payload
+                    # what an injected / scripted failure looks like (gRPC status codes, a plain error): a binding dimension
+                    d["code"] = CODES[len(scheds) % len(CODES)]
                     scheds.append(d)
         total_scheds = len(scheds)
         if prof["keep"] > 1:
@@ -141,7 +144,8 @@ def run(c, a):
             rng = random.Random(c.seed)
             groups = {}
             for s in scheds:
-                groups.setdefault((klass(s), s["sync"], s["mode"], s.get("src", "coop"), s["payload"]), []).append(s)
+                fk = s["code"] if (s["fault"]["k"] != "none" or klass(s) == "SE-err") else ""
+                groups.setdefault((klass(s), s["sync"], s["mode"], s.get("src", "coop"), s["payload"], fk), []).append(s)
             scheds = []
             for k in sorted(groups, key=str):
                 g = groups[k]
